@@ -4,7 +4,7 @@ position given, and the next token starts exactly there — tokens handed out by
 from vx.unit import Unit
 from vx.extract import C
 
-PROPS = ['C19']
+PROPS = ['C19', 'C13']
 HEADER = 'use vstd::prelude::*;\nuse std::sync::Arc;\nverus! {\n'
 FOOTER = '\n} // verus!\nfn main() {}\n'
 
@@ -35,6 +35,18 @@ def build(repo, findings):
     u.raw('impl TokenParseState {')
     u.add(f)
     u.raw('}\n')
+    # ---- which character changes the quoting state (C13, read side: `\\'` inside $'..' must not end the quote)
+    iq = src.item(r'^const fn is_quoting_char\(', 'is_quoting_char').r1()
+    iq.sig('is_quoting_char', ret='r', ensures=[C('C13 the-three-quoting-characters', "r == (c == '\\\\' || c == '\\'' || c == '\"')")])
+    u.add(iq)
+    dq = src.item(r'^const fn does_char_newly_affect_quoting\(', 'does_char_newly_affect_quoting').r1()
+    dq.sig('does_char_newly_affect_quoting', ret='r', ensures=[
+        C('C13 after-a-backslash-nothing-changes-the-quoting', 'state.in_escape ==> !r'),
+        C('C13 inside-double-and-ansi-c-quotes-a-backslash-escapes-the-next-character', "(!state.in_escape && (state.quote_mode is Double || state.quote_mode is AnsiC)) ==> r == (c == '\\\\')"),
+        C('C13 inside-single-quotes-nothing-does', '(!state.in_escape && state.quote_mode is Single) ==> !r'),
+        C('C13 outside-quotes-a-backslash-or-a-quote-mark-does', "(!state.in_escape && state.quote_mode is None) ==> r == (c == '\\\\' || c == '\\'' || c == '\"')"),
+    ])
+    u.add(dq)
     # ---- Tokenizer::next_char: the cursor counts characters
     src.require_text(r'char_reader: std::iter::Peekable<utf8_chars::Chars<\'a, R>>,', 'Tokenizer.char_reader is a peekable character reader')
     u.raw('''// projection of Tokenizer / CrossTokenParseState to what next_char touches (the reader is opaque: one character per call, None at the end)
@@ -61,5 +73,5 @@ pub struct Tokenizer { pub char_reader: CharReader, pub cross_state: CrossTokenP
     u.assume('uninterp', 'default_spec')
     u.assume('axiom', 'Default of bool and of String')
     u.assume('stub', 'that the position handed to pop is the cursor is read off the call sites, not proved; the cursor itself counts characters and never moves back (next_char, under contract here); tokens queued for here-documents leave their state in another order (sorted again by the highlighter: U20c)')
-    u.expected_min_fns = 2
+    u.expected_min_fns = 4
     return u
